@@ -20,6 +20,8 @@ structure St4 where
   started : Bool := false
   seenDiff : List String := []
   seenPool : List String := []
+  /-- (session, PDR ID) of PDRs created by an accepted modification: `sendUpdate` allocates no counter cell for them (open finding) -/
+  createdInMod : List (Nat × Nat) := []
   /-- meter cells a previous incarnation left configured (the crash clause of C04 speaks of table entries only) -/
   staleMeters : List (Nat × Nat) := []
   /-- histories that led to known kinds of leftovers: tags accumulated per session / globally, used to label findings -/
@@ -249,9 +251,10 @@ def refs (es : List Entry) : List (String × Nat × String) :=
     ctr
 
 /-- C15 on the observation: a counter cell is referenced by at most one terminations entry -/
-def exclusiveFindings (label : String) (p4 : Json) : List Finding :=
+def exclusiveFindings (label : String) (p4 : Json) (counterless : Bool := false) : List Finding :=
   let rs := refs (obsEntries p4)
-  let dup := rs.filter fun (k, v, key) => rs.any fun (k', v', key') => k == k' && v == v' && key != key'
+  -- (a live PDR created by a modification has no cell of its own and counts into cell 0: reported as such, once, by `common`)
+  let dup := rs.filter fun (k, v, key) => !(counterless && k == "counter" && v == 0) && rs.any fun (k', v', key') => k == k' && v == v' && key != key'
   -- a tunnel-peer ID an installed sessions entry points to must be allocated, i.e. have its tunnel_peers entry
   let es := obsEntries p4
   let peerIDs := (es.filter (·.table == Gen.P4Constants.TablePreQosPipeTunnelPeers)).filterMap fun e => e.ms.head?.map (·.v)
@@ -267,11 +270,12 @@ def exclusiveFindings (label : String) (p4 : Json) : List Finding :=
   | (v, key) :: _ => [⟨"C15", s!"{label}: tunnel-peer ID {v} is referenced by the installed entry {key} but has no tunnel_peers entry (released while a live session uses it)"⟩])
 
 /-- C15: pool invariants of the model state (evaluated, not assumed): free ∪ held is duplicate-free and inside the universe -/
-def poolFindings (label : String) (x : World4) (p4 : Json) : List Finding :=
+def poolFindings (label : String) (x : World4) (p4 : Json) (skip : List (Nat × Nat) := []) : List Finding :=
   let st := x.c.st
   let so := (getObj? p4 "stats").getD Json.null
   let ss := live x
-  let heldCtr := ss.flatMap fun s => s.pdrs.map (·.ctrID)
+  -- cells of the live PDRs that were given one (`skip`: PDRs created by a modification, which hold none)
+  let heldCtr := ss.flatMap fun s => (s.pdrs.filter fun p => !skip.contains (s.lseid, p.pdrID)).map (·.ctrID)
   let heldApp := st.meters.flatMap fun m => if m.2.kind = 1 then ([m.2.ul] ++ if m.2.dl ≠ m.2.ul then [m.2.dl] else []) else []
   let heldSess := st.meters.flatMap fun m => if m.2.kind = 2 then [m.2.ul, m.2.dl] else []
   let uni (k : String) (free : Nat) (held : Nat) (size : Nat) : List Finding :=
@@ -342,7 +346,8 @@ def common (s : St4) (label : String) (obs : Json) (x' : World4) (cause : Nat) (
     (if (obsMeters p4).filter (fun m => !s.staleMeters.contains m.1) |>.isEmpty then [] else [⟨"C05", s!"{label}: no session is live, but meter cells are still configured"⟩])
   -- conditions on the pools persist: each is reported at the event that introduces it
   let strip (m : String) : String := ((m.splitOn ": ").drop 1).foldl (· ++ ·) ""
-  let pf := poolFindings label x' p4 ++ exclusiveFindings label p4
+  let liveSkip := s.createdInMod.filter fun (f, id) => (live x').any fun ses => ses.lseid == f && ses.pdrs.any (·.pdrID == id)
+  let pf := poolFindings label x' p4 liveSkip ++ exclusiveFindings label p4 (!liveSkip.isEmpty)
   let newPf := pf.filter fun f => !s.seenPool.contains (strip f.msg)
   ({ s'' with seenPool := pf.map fun f => strip f.msg }, rf ++ sf ++ validityFindings label rpcs ++ failedWriteFindings label rpcs cause ++ newPf ++ imf ++ idle)
 
@@ -427,8 +432,16 @@ def step (s : St4) (n : Nat) (line : String) : St4 × List Finding :=
         | _, _ => false
       let label := s!"mod{modParts req}" ++ (if sharesKey then " removes-a-PDR-that-shares-its-sessions-entry" else "") ++
         (if filterChange then " update-PDR-changes-filter" else "") ++ (if r.cause = 1 then "" else " rejected")
+      -- PDRs created by this (accepted) modification and stored without a counter cell of their own
+      let counterless : List (Nat × Nat) := if r.cause != 1 then [] else req.createPdrs.filterMap fun ie =>
+        match afterS.bind (·.pdrs.find? (·.pdrID = ie.id)) with
+        | some p => if p.ctrID == 0 && !(stored.map (·.pdrs.any (·.pdrID == ie.id))).getD false then some (req.seid, ie.id) else none
+        | none => none
+      let s := { s with createdInMod := s.createdInMod ++ counterless }
       let (s', fs) := common s label obs x' (getNat obs "cause") true
-      (s', replyFindings obs r ++ fs)
+      (s', replyFindings obs r ++ fs ++
+        (if counterless.isEmpty then [] else
+          [⟨"C15", s!"{label}: a PDR created by a modification gets no counter cell of its own (stored with cell 0): PDR {counterless.map (·.2)} of session {req.seid}"⟩]))
     | "del" =>
       let a := getNat j "a"
       let shape := replyShape obs 55
